@@ -32,6 +32,7 @@ func Setup() {
 	put("userF32", 4, entities.Float32, 4)
 	put("userOctets5", 5, entities.OctetArray, 5)
 	put("userS64", 6, entities.Signed64, 8)
+	put("userFixedStr8", 7, entities.String, 8)
 }
 
 // Kind identifies one supported (data type, form) combination.
@@ -61,6 +62,11 @@ const (
 	KRevU64  // reverse (29305) element
 	KAntreaS // Antrea (56506) string
 	NumKinds
+	// KUserFixedStr is a user-registered string element DECLARED with a fixed
+	// length (8).  The library always length-prefixes strings whatever the
+	// declared length, so the kind is kept out of the pools that compare with
+	// the reference encoding; C16 uses it for the builders' bookkeeping only.
+	KUserFixedStr
 )
 
 type elemDef struct {
@@ -68,35 +74,38 @@ type elemDef struct {
 	ent  uint32
 }
 
-var defs = [NumKinds]elemDef{
-	KU8:       {"protocolIdentifier", 0},
-	KU16:      {"sourceTransportPort", 0},
-	KU32:      {"ingressInterface", 0},
-	KU64:      {"octetDeltaCount", 0},
-	KS8:       {"userS8", UserEnterprise},
-	KS16:      {"userS16", UserEnterprise},
-	KS32:      {"ingressNetworkPolicyRulePriority", registry.AntreaEnterpriseID},
-	KS64:      {"userS64", UserEnterprise},
-	KF32:      {"userF32", UserEnterprise},
-	KF64:      {"samplingProbability", 0},
-	KBool:     {"dataRecordsReliability", 0},
-	KMac:      {"sourceMacAddress", 0},
-	KDTS:      {"flowEndSeconds", 0},
-	KDTMS:     {"flowStartMilliseconds", 0},
-	KIPv4:     {"sourceIPv4Address", 0},
-	KIPv4in16: {"destinationIPv4Address", 0},
-	KIPv6:     {"sourceIPv6Address", 0},
-	KString:   {"interfaceName", 0},
-	KOctetVar: {"applicationId", 0},
-	KOctetFix: {"userOctets5", UserEnterprise},
-	KRevU64:   {"reverseOctetDeltaCount", registry.IANAReversedEnterpriseID},
-	KAntreaS:  {"sourcePodName", registry.AntreaEnterpriseID},
+var defs = [NumKinds + 2]elemDef{
+	KUserFixedStr: {"userFixedStr8", UserEnterprise},
+	KU8:           {"protocolIdentifier", 0},
+	KU16:          {"sourceTransportPort", 0},
+	KU32:          {"ingressInterface", 0},
+	KU64:          {"octetDeltaCount", 0},
+	KS8:           {"userS8", UserEnterprise},
+	KS16:          {"userS16", UserEnterprise},
+	KS32:          {"ingressNetworkPolicyRulePriority", registry.AntreaEnterpriseID},
+	KS64:          {"userS64", UserEnterprise},
+	KF32:          {"userF32", UserEnterprise},
+	KF64:          {"samplingProbability", 0},
+	KBool:         {"dataRecordsReliability", 0},
+	KMac:          {"sourceMacAddress", 0},
+	KDTS:          {"flowEndSeconds", 0},
+	KDTMS:         {"flowStartMilliseconds", 0},
+	KIPv4:         {"sourceIPv4Address", 0},
+	KIPv4in16:     {"destinationIPv4Address", 0},
+	KIPv6:         {"sourceIPv6Address", 0},
+	KString:       {"interfaceName", 0},
+	KOctetVar:     {"applicationId", 0},
+	KOctetFix:     {"userOctets5", UserEnterprise},
+	KRevU64:       {"reverseOctetDeltaCount", registry.IANAReversedEnterpriseID},
+	KAntreaS:      {"sourcePodName", registry.AntreaEnterpriseID},
 }
 
 func (k Kind) String() string { return defs[k].name }
 
 // IsVar reports whether the kind is variable-length on the wire.
-func (k Kind) IsVar() bool { return k == KString || k == KOctetVar || k == KAntreaS }
+func (k Kind) IsVar() bool {
+	return k == KString || k == KOctetVar || k == KAntreaS || k == KUserFixedStr
+}
 
 // Width is the fixed wire width (0 for variable-length kinds).
 func (k Kind) Width() int {
@@ -175,7 +184,7 @@ func Draw(k Kind, tag string, n int) Val {
 	case KOctetFix:
 		v.Raw = sx.Bytes(tag, 5)
 		v.Enc = v.Raw
-	case KString, KOctetVar, KAntreaS:
+	case KString, KOctetVar, KAntreaS, KUserFixedStr:
 		v.Raw = sx.Bytes(tag, n)
 		v.Enc = ref.Var(nil, v.Raw)
 	}
@@ -219,7 +228,7 @@ func Element(v Val) entities.InfoElementWithValue {
 		return entities.NewIPAddressInfoElement(ie, net.IP(v.Raw))
 	case KIPv4in16:
 		return entities.NewIPAddressInfoElement(ie, net.IPv4(v.Raw[0], v.Raw[1], v.Raw[2], v.Raw[3]))
-	case KString, KAntreaS:
+	case KString, KAntreaS, KUserFixedStr:
 		return entities.NewStringInfoElement(ie, string(v.Raw))
 	case KOctetVar, KOctetFix:
 		return entities.NewOctetArrayInfoElement(ie, v.Raw)
@@ -257,7 +266,7 @@ func Same(v Val, e entities.InfoElementWithValue) bool {
 		return sx.EqBytes(e.GetMacAddressValue(), v.Raw)
 	case KIPv4, KIPv6, KIPv4in16:
 		return sx.EqBytes(e.GetIPAddressValue(), v.Raw)
-	case KString, KAntreaS:
+	case KString, KAntreaS, KUserFixedStr:
 		return e.GetStringValue() == string(v.Raw)
 	case KOctetVar, KOctetFix:
 		return sx.EqBytes(e.GetOctetArrayValue(), v.Raw)
